@@ -55,7 +55,7 @@ Ok(v) == [ok |-> TRUE, val |-> v]
 Unpad(sch, c, padcnt) ==
   LET n == Len(c) IN
   CASE sch.s = "none"  -> Ok(c)
-    [] sch.s = "zero"  -> Ok(FirstBits(c, 8*n - padcnt))
+    [] sch.s = "zero"  -> IF padcnt > 8*n THEN Bad ELSE Ok(FirstBits(c, 8*n - padcnt))      \* total: an impossible pad count is "malformed"
     [] sch.s = "iso"   -> LET p == LastOneBit(c) IN IF p = 0 THEN Bad ELSE Ok(FirstBits(c, p-1))
     [] sch.s \in {"pkcs7", "x923"} ->
          IF n = 0 THEN Bad ELSE
